@@ -378,21 +378,26 @@ func TestSnapshots(t *testing.T) {
 	})
 }
 
-
 // TestAliasTable: every way of taking an alias x every way of writing through it, observed through every name.
 func TestAliasTable(t *testing.T) {
 	type aliasWay struct {
 		name string
-		take func() *gen.Node // defines `al` from `a`
+		take func() *gen.Node            // defines `al` from `a`
 		path func(k *gen.Node) *gen.Node // the element of a[...] as reached through al
 	}
-	inner := func() *gen.Node { return sgen.Lit([]any{int64(1), []any{int64(2), int64(3)}, map[string]any{"k": []any{int64(4)}}}) }
+	inner := func() *gen.Node {
+		return sgen.Lit([]any{int64(1), []any{int64(2), int64(3)}, map[string]any{"k": []any{int64(4)}}})
+	}
 	ways := []aliasWay{
 		{"direct", func() *gen.Node { return gen.NSet("al", id("a")) }, func(k *gen.Node) *gen.Node { return gen.NIndex(id("al"), k) }},
 		{"in-list-literal", func() *gen.Node { return gen.NSet("al", gen.NList(gen.NInt(0), id("a"))) }, func(k *gen.Node) *gen.Node { return gen.NIndex(id("al"), gen.NInt(1), k) }},
 		{"in-map-literal", func() *gen.Node { return gen.NSet("al", gen.NMap(gen.NStr("m"), id("a"))) }, func(k *gen.Node) *gen.Node { return gen.NIndex(id("al"), gen.NStr("m"), k) }},
-		{"stored-into-list", func() *gen.Node { return gen.NIf([]*gen.Node{gen.NBool(true)}, [][]*gen.Node{{gen.NSet("al", gen.NList(gen.NNil())), gen.NAssign("=", []*gen.Node{gen.NIndex(id("al"), gen.NInt(0))}, []*gen.Node{id("a")})}}, nil, false) }, func(k *gen.Node) *gen.Node { return gen.NIndex(id("al"), gen.NInt(0), k) }},
-		{"stored-into-map", func() *gen.Node { return gen.NIf([]*gen.Node{gen.NBool(true)}, [][]*gen.Node{{gen.NSet("al", gen.NMap()), gen.NAssign("=", []*gen.Node{gen.NIndex(id("al"), gen.NStr("z"))}, []*gen.Node{id("a")})}}, nil, false) }, func(k *gen.Node) *gen.Node { return gen.NIndex(id("al"), gen.NStr("z"), k) }},
+		{"stored-into-list", func() *gen.Node {
+			return gen.NIf([]*gen.Node{gen.NBool(true)}, [][]*gen.Node{{gen.NSet("al", gen.NList(gen.NNil())), gen.NAssign("=", []*gen.Node{gen.NIndex(id("al"), gen.NInt(0))}, []*gen.Node{id("a")})}}, nil, false)
+		}, func(k *gen.Node) *gen.Node { return gen.NIndex(id("al"), gen.NInt(0), k) }},
+		{"stored-into-map", func() *gen.Node {
+			return gen.NIf([]*gen.Node{gen.NBool(true)}, [][]*gen.Node{{gen.NSet("al", gen.NMap()), gen.NAssign("=", []*gen.Node{gen.NIndex(id("al"), gen.NStr("z"))}, []*gen.Node{id("a")})}}, nil, false)
+		}, func(k *gen.Node) *gen.Node { return gen.NIndex(id("al"), gen.NStr("z"), k) }},
 		{"through-slice", func() *gen.Node { return gen.NSet("al", gen.NSlice(id("a"), nil, nil, nil, false)) }, func(k *gen.Node) *gen.Node { return gen.NIndex(id("al"), k) }},
 		{"loop-variable", func() *gen.Node { return gen.NSet("al", gen.NList(id("a"))) }, nil},
 	}
